@@ -96,7 +96,7 @@ func Run(d *fw.Driver, res *fw.Result, seed int64, thorough bool) error {
 			}
 		}
 	}
-	return nil
+	return slowPeer(res)
 }
 
 func healthy(d *fw.Driver, res *fw.Result, seed int64, p pt, serverPing time.Duration, base int) error {
